@@ -4,7 +4,8 @@ M1 (interval algebra): real AddSegment/RemoveSegment/PurgeSegments/UpdateRegion/
 objects, the update function being a harness closure that returns the case's own segments.
 M2 (calendar): the real LegacyTimePeriod::ScriptFunc under TZ=UTC / Europe/Berlin / America/New_York /
 Australia/Lord_Howe, windows on and around DST transition days; the UTC-offset table the model uses is
-computed here from the zoneinfo database and checked against libc by vdrive (tp_tz)."""
+computed here from the zoneinfo database and checked against libc by vdrive (tp_tz).  The model parses the
+day definition / time range STRINGS itself (Tp/TpParse.v); ast= / tr= are the printer's cross-check."""
 import random, itertools, datetime, bisect
 
 try:
@@ -22,17 +23,22 @@ RULE = ('M1: every sequence of <=2 (quick) / <=3 (thorough) AddSegment/RemoveSeg
         'before/inside/after valid_end; IsInside probed at every grid point and its neighbours, the is_inside attribute under the virtual clock. '
         'M2: every day-specification form (date, month day, day N, negative days, weekday, n-th weekday, n-th weekday of month, ranges, strides) '
         'x {one range, two ranges, 24:00 end, wrap past midnight, >24h end} x 4 time zones x windows of 1 h..3 d placed on and around DST '
-        'transition days; IsInside probed at every range boundary +-1 s and on a 30-minute grid. '
+        'transition days; IsInside probed at every range boundary +-1 s and on a 30-minute grid; '
+        'm2-month-name: every form that names a month, seen from windows in the named month, the month before/after, at month ends and around Feb 28/29 of 2034/2035/2036; '
+        'm2-nth-transition: n-th weekday searches walking over every transition day of every zone; m2-mktime: libc mktime against the table model before/at/inside/after every skipped and repeated hour; '
+        'm2-parse-*: 126 hand-made corner strings and mutated printed strings through config validation (accepted/rejected, code against the parser model), odd but accepted strings evaluated. '
         'non-trivial = at least one observed state with a segment and both inside and outside probes; distinct = distinct script text')
 TRUSTED = ['model: coq/Tp/TpModel.v (transcription of timeperiod.cpp 41-301), coq/Tp/TpCal.v (transcription of legacytimeperiod.cpp '
-           'ParseTimeSpec/ParseTimeRange/IsInTimeRange/FindNthWeekday/ProcessTimeRange*/ScriptFunc on the parsed form)',
-           'string parsing of day definitions / time ranges is glue: the generator prints string and parsed form, the code parses the string, the model reads the parsed form',
+           'IsInTimeRange/FindNthWeekday/ProcessTimeRange*/ScriptFunc on the parsed form), coq/Tp/TpParse.v (transcription of ParseTimeRange/ParseTimeSpec/ProcessTimeRanges on byte strings)',
+           'which of the two known forms IsInTimeRange\'s day number and ScriptFunc\'s day loop have is read from the source text by tools/facts_c08.py (string match on the comment-stripped function bodies)',
+           'the generator prints string and parsed form; the parsed form the model and the oracle use comes from the parser model applied to the string; the printed parsed form is only cross-checked (oracle class parse-roundtrip)',
            "libc's time zone database: the offset table given to the model is computed from /usr/share/zoneinfo by Python and compared with localtime_r by vdrive in every case (tp_tz)",
-           'mktime for local times inside a skipped/repeated DST hour is modelled after observed glibc behaviour and not used by any theorem (range boundaries are restricted to local times that exist once)']
+           'mktime for local times inside a skipped/repeated DST hour is modelled after observed glibc behaviour (compared in family m2-mktime, libc primed with the local time two days earlier) and not used by any theorem (range boundaries are restricted to local times that exist once)']
 ASSUMPTIONS = ['times are whole seconds (exact in binary64)',
-               'local midnight exists exactly once on every day of the window (true for the four zones used)',
+               'local midnight exists exactly once on every day the loops ask about (true for the four zones used; checked by computation per case: tp_cal_hyps_ok)',
                'range boundaries are local times that exist exactly once on the days of the window (the property\'s own restriction); generated time-of-day boundaries avoid 01:00-03:00 in zones with DST',
-               'periods referenced by includes/excludes are updated before the referencing period, for the same window']
+               'periods referenced by includes/excludes are updated before the referencing period, for the same window',
+               'numbers in generated strings stay below 2^31 in magnitude except for the listed overflow probes; n-th weekday numbers stay small (the search is linear in n); huge negative month days (boost::gregorian range errors) are not generated']
 
 MONTHS = ['january', 'february', 'march', 'april', 'may', 'june', 'july', 'august', 'september', 'october', 'november', 'december']
 WDAYS = ['sunday', 'monday', 'tuesday', 'wednesday', 'thursday', 'friday', 'saturday']
